@@ -1,5 +1,6 @@
 mod codec;
 mod http;
+mod proto;
 mod util;
 
 fn arg<T: std::str::FromStr>(args: &[String], i: usize, default: T) -> T {
@@ -17,6 +18,26 @@ fn main() {
             let v6: u8 = arg(&args, 4, 0);
             print!("{}", http::run(seed, n, v6 == 1));
             // the endpoint's acceptor thread never exits: leave the process hard
+            std::process::exit(0);
+        }
+        "codec-mesh" => print!("{}", codec::mesh_cases(arg(&args, 2, 1), arg(&args, 3, 100), arg(&args, 4, 2000))),
+        "codec-image" => print!("{}", codec::image_cases(arg(&args, 2, 1), arg(&args, 3, 100), arg(&args, 4, 16))),
+        "codec-msg" => print!("{}", codec::msg_cases(arg(&args, 2, 1), arg(&args, 3, 100))),
+        "codec-reflect" => print!("{}", codec::reflect_cases(arg(&args, 2, 1), arg(&args, 3, 100))),
+        "codec-formats" => print!("{}", codec::format_table()),
+        "proto" => {
+            // bsh proto <scenario file>
+            let text = std::fs::read_to_string(&args[2]).expect("scenario file");
+            let prev = std::panic::take_hook();
+            std::panic::set_hook(Box::new(move |info| {
+                if std::env::var("BSH_PANIC_TRACE").is_ok() {
+                    prev(info);
+                }
+            }));
+            let out = proto::run_scenario(&text);
+            print!("{}", out);
+            use std::io::Write;
+            std::io::stdout().flush().unwrap();
             std::process::exit(0);
         }
         _ => {
